@@ -183,6 +183,9 @@ func cmdCheck(prop, tier string) int {
 
 	findings := loadFindings()
 	baseline := loadBaseline(prop)
+	if os.Getenv("GOVC_REBASELINE") == "1" {
+		baseline = nil // an explicit re-baseline: the previous list does not apply
+	}
 	replayDir := filepath.Join(verifRoot, "replays", prop)
 	_ = os.MkdirAll(replayDir, 0o755)
 
@@ -221,7 +224,7 @@ func cmdCheck(prop, tier string) int {
 				if o.ok() {
 					coversOK++
 				} else if o.Result.Status == "unsat" {
-					engineBad = append(engineBad, fmt.Sprintf("vacuity: %s is unsatisfiable", o.Name))
+					engineBad = append(engineBad, fmt.Sprintf("vacuity: %s is unsatisfiable (the assumptions collected up to %s contradict each other)", o.Name, o.Pos))
 				}
 				continue
 			}
